@@ -2,8 +2,8 @@
    Model/Tcb.v.  No-crash lives in TcbInv.v (run_ops_ok); this file has the
    inertness of unacceptable segments, the reading of is_seq_ok as an interval
    test, and the send-window bound of segments(). *)
-From Elvis Require Import Model.Base Model.U32 Model.Tcb Proofs.U32Facts Proofs.TcbEdges Proofs.TcbInv.
-From Coq Require Import ZifyBool.
+From Elvis Require Import Model.Base Model.U32 Model.Tcb Model.TcpNet Proofs.U32Facts Proofs.TcbEdges Proofs.TcbInv.
+From Coq Require Import ZifyBool Relations.
 Local Open Scope Z_scope.
 Ltac Zify.zify_post_hook ::= Z.div_mod_to_equations.
 
@@ -1037,3 +1037,212 @@ Proof.
   - apply heap_push_In. exact Hin.
   - eapply process_segment_deleted; eassumption.
 Qed.
+
+(* ------------------------------------------------------------------ *)
+(* the closed two-endpoint system of Model/TcpNet.v with forged segments
+   injected at will: the panicked flag is never raised *)
+
+Definition wf_cfg (c : config) : Prop :=
+  u16 (portA c) /\ u16 (portB c) /\ u32 (issA c) /\ u32 (issB c) /\
+  SPACE_FOR_HEADERS <= mtuA c <= 65535 /\ SPACE_FOR_HEADERS <= mtuB c <= 65535.
+Definition wf_label (l : label) : Prop :=
+  match l with LTick _ ms => 0 <= ms | LInject _ seg => wf_seg seg | _ => True end.
+
+Definition end_ok (e : endpoint) : Prop := match e with ELive t => Inv t | _ => True end.
+Record SysInv (s : sys) : Prop := mkSysInv {
+  si_np : panicked s = false;
+  si_A : end_ok (endA s); si_B : end_ok (endB s);
+  si_nA : Forall wf_seg (netA s); si_nB : Forall wf_seg (netB s) }.
+
+Lemma SysInv_end s x : SysInv s -> end_ok (end_of s x).
+Proof. intros []. destruct x; assumption. Qed.
+Lemma SysInv_net s x : SysInv s -> Forall wf_seg (net_of s x).
+Proof. intros []. destruct x; assumption. Qed.
+Lemma SysInv_set_end s x e : SysInv s -> end_ok e -> SysInv (set_end s x e).
+Proof. intros [] He. destruct x; constructor; cbn; assumption. Qed.
+Lemma SysInv_set_net s x n : SysInv s -> Forall wf_seg n -> SysInv (set_net s x n).
+Proof. intros [] He. destruct x; constructor; cbn; assumption. Qed.
+Lemma SysInv_set_sub s x v : SysInv s -> SysInv (set_sub s x v).
+Proof. intros []. destruct x; constructor; cbn; assumption. Qed.
+Lemma SysInv_set_del s x v : SysInv s -> SysInv (set_del s x v).
+Proof. intros []. destruct x; constructor; cbn; assumption. Qed.
+Lemma SysInv_final_read s x t : SysInv s -> SysInv (final_read s x t).
+Proof. intros H. unfold final_read. destruct (in_text t); [assumption|apply SysInv_set_del; assumption]. Qed.
+
+Lemma wf_cfg_side c x : wf_cfg c ->
+  u16 (port_of c x) /\ u32 (iss_of c x) /\ SPACE_FOR_HEADERS <= mtu_of c x <= 65535.
+Proof. intros (A & B & C & D & E & F). destruct x; cbn; auto. Qed.
+
+Lemma Forall_snoc {A} (P : A -> Prop) l x : Forall P l -> P x -> Forall P (l ++ [x]).
+Proof. intros Hl Hx. apply Forall_app. split; [assumption|]. constructor; [assumption|constructor]. Qed.
+
+Lemma rst_reply_wf (h : header) : wf_hdr h ->
+  wf_hdr (hb_rst (mkHdr (h_dport h) (h_sport h) (h_ack h) 0 ctl0 0 0)).
+Proof.
+  intros (Hsp & Hdp & Hseq & Hack & Hwnd & Hurg). apply hb_flag_wf.
+  unfold wf_hdr, u16, u32, M32 in *; cbn. repeat split; try assumption; lia.
+Qed.
+
+Lemma arrive_inv c s r seg : wf_cfg c -> SysInv s -> wf_seg seg -> SysInv (fst (arrive c s r seg)).
+Proof.
+  intros Hc Hs Hseg. unfold arrive.
+  pose proof (SysInv_end s r Hs) as He. destruct (end_of s r) as [| |t|]; cbn [fst]; try assumption.
+  - (* closed *)
+    unfold arrives_closed. destruct Hseg as [Hh Hl]. pose proof Hh as (Hsp & Hdp & Hseq & Hack & Hwnd & Hurg).
+    repeat break_if; cbn [fst]; try assumption; apply SysInv_set_net; try assumption;
+      (apply Forall_snoc; [apply SysInv_net; assumption|apply wf_seg_nil]).
+    + apply rst_reply_wf; assumption.
+    + apply hb_ack_wf; [|apply wadd_u32]. apply hb_flag_wf.
+      unfold wf_hdr, u16, u32, M32 in *; cbn. repeat split; try assumption; lia.
+  - (* listen *)
+    destruct (wf_cfg_side c r Hc) as (_ & Hi & Hm).
+    destruct (arrives_listen seg (iss_of c r) (mtu_of c r)) as [|h|t] eqn:El; cbn [fst]; try assumption.
+    + apply SysInv_set_net; [assumption|]. apply Forall_snoc; [apply SysInv_net; assumption|].
+      apply wf_seg_nil. revert El. unfold arrives_listen. repeat break_if; try discriminate.
+      intros H; inversion H; subst. apply rst_reply_wf, Hseg.
+    + apply SysInv_set_end; [assumption|]. cbn. eapply arrives_listen_inv; eassumption.
+  - (* live *)
+    cbn in He. destruct (segment_arrives_ok t seg He Hseg) as (t' & ar & -> & H').
+    destruct ar; cbn [fst].
+    + apply SysInv_set_end; assumption.
+    + apply SysInv_set_end; [apply SysInv_final_read; assumption|exact I].
+Qed.
+
+Lemma emit_inv s x : SysInv s -> SysInv (fst (fst (emit s x))) /\ snd (emit s x) = false.
+Proof.
+  intros Hs. unfold emit. pose proof (SysInv_end s x Hs) as He.
+  destruct (end_of s x) as [| |t|]; cbn [fst snd]; auto.
+  cbn in He. destruct (tcb_segments_ok t He) as (t' & segs & -> & H' & Hsegs). cbn [fst snd].
+  split; [|reflexivity]. apply SysInv_set_net.
+  - apply SysInv_set_end; assumption.
+  - apply Forall_app. split; [apply SysInv_net; assumption|assumption].
+Qed.
+
+Lemma end_of_set_end s x e : end_of (set_end s x e) x = e.
+Proof. destruct x; reflexivity. Qed.
+
+Lemma tick_inv s x ms : SysInv s -> 0 <= ms -> SysInv (fst (tick s x ms)).
+Proof.
+  intros Hs Hms. unfold tick. destruct (emit_inv s x Hs) as [H1 H2].
+  destruct (emit s x) as [[s1 segs] bad]. cbn [fst snd] in *. subst bad.
+  pose proof (SysInv_end s1 x H1) as He. destruct (end_of s1 x) as [| |t|]; cbn [fst]; try assumption.
+  cbn in He. pose proof (advance_time_inv t ms He Hms) as H'.
+  destruct (advance_time t ms) as [t1 []]; cbn [fst] in *.
+  - apply SysInv_set_end; assumption.
+  - apply SysInv_set_end; [apply SysInv_final_read; assumption|exact I].
+Qed.
+
+Lemma recv_inv s x : SysInv s -> SysInv (fst (recv s x)).
+Proof.
+  intros Hs. unfold recv. pose proof (SysInv_end s x Hs) as He.
+  destruct (end_of s x) as [| |t|]; cbn [fst]; try assumption.
+  cbn in He. cbn [tcb_receive]. pose proof (tcb_receive_inv t He) as H'. cbn [tcb_receive fst] in H'.
+  destruct (in_text t); cbn [fst].
+  - apply SysInv_set_end; assumption.
+  - apply SysInv_set_del, SysInv_set_end; assumption.
+Qed.
+
+Lemma net_of_set_net s x n : net_of (set_net s x n) x = n.
+Proof. destruct x; reflexivity. Qed.
+
+Lemma deliver_all_inv fuel c : wf_cfg c -> forall s x, SysInv s -> SysInv (deliver_all fuel c s x).
+Proof.
+  intros Hc. induction fuel as [|f IH]; intros s x Hs; cbn [deliver_all]; [assumption|].
+  pose proof (SysInv_net s x Hs) as Hn.
+  destruct (net_of s x) as [|seg rest]; [assumption|].
+  inversion Hn; subst. apply IH. apply arrive_inv; [assumption| |assumption].
+  apply SysInv_set_net; assumption.
+Qed.
+
+Lemma fair_half_inv c s x : wf_cfg c -> SysInv s -> SysInv (fair_half c s x).
+Proof.
+  intros Hc Hs. unfold fair_half.
+  assert (H1 : SysInv (fst (tick s x 101))) by (apply tick_inv; [assumption|lia]).
+  destruct (emit_inv _ x H1) as [H2 _].
+  destruct (emit (fst (tick s x 101)) x) as [[s2 segs] bad]. cbn [fst] in H2.
+  apply recv_inv, recv_inv, deliver_all_inv; assumption.
+Qed.
+
+Lemma fair_rounds_inv k c : wf_cfg c -> forall s, SysInv s -> SysInv (fair_rounds k c s).
+Proof.
+  intros Hc. induction k as [|k IH]; intros s Hs; cbn [fair_rounds]; [assumption|].
+  apply IH. apply fair_half_inv; [assumption|]. apply fair_half_inv; assumption.
+Qed.
+
+Lemma remove_nth_Forall {A} (P : A -> Prop) l : forall n, Forall P l -> Forall P (remove_nth l n).
+Proof.
+  induction l as [|y l IH]; intros [|n] H; cbn; auto; inversion H; subst; auto.
+Qed.
+
+Lemma sys_step_inv c s l : wf_cfg c -> wf_label l -> SysInv s -> SysInv (fst (sys_step c s l)).
+Proof.
+  intros Hc Hl Hs. unfold sys_step. rewrite (si_np _ Hs).
+  destruct l as [x|x bytes|x|x|x ms|x|x i|x i|x i|x seg|k|]; cbn [wf_label] in Hl.
+  - (* open *)
+    destruct (end_of s x) eqn:Ee; cbn [fst]; try assumption.
+    apply SysInv_set_end; [assumption|]. cbn.
+    destruct (wf_cfg_side c x Hc) as (A & B & C). destruct (wf_cfg_side c (other x) Hc) as (A' & _).
+    apply tcb_open_inv; assumption.
+  - (* send *)
+    pose proof (SysInv_end s x Hs) as He. destruct (end_of s x) as [| |t|]; cbn [fst]; try assumption.
+    apply SysInv_set_end; [destruct (accepts_send (st t)); [apply SysInv_set_sub|]; assumption|].
+    cbn. apply tcb_send_inv. exact He.
+  - apply recv_inv; assumption.
+  - (* close *)
+    pose proof (SysInv_end s x Hs) as He. destruct (end_of s x) as [| |t|]; cbn [fst]; try assumption.
+    cbn in He. pose proof (tcb_close_inv t He) as H'. destruct (tcb_close t) as [t1 r]. cbn [fst] in *.
+    apply SysInv_set_end; assumption.
+  - apply tick_inv; assumption.
+  - (* emit *)
+    destruct (end_of s x); cbn [fst]; try assumption.
+    destruct (emit_inv s x Hs) as [H1 H2].
+    destruct (emit s x) as [[s1 segs] bad]. cbn [fst snd] in *. subst bad. cbn [fst]. assumption.
+  - (* deliver *)
+    pose proof (SysInv_net s x Hs) as Hn. destruct (net_of s x) as [|s0 n] eqn:En; [assumption|].
+    destruct (nth_error _ _) as [seg|] eqn:Enth; [|assumption].
+    apply arrive_inv; [assumption| |].
+    + apply SysInv_set_net; [assumption|]. apply remove_nth_Forall. assumption.
+    + apply nth_error_In in Enth. rewrite Forall_forall in Hn. auto.
+  - (* drop *)
+    pose proof (SysInv_net s x Hs) as Hn. destruct (net_of s x) as [|s0 n] eqn:En; [assumption|].
+    cbn [fst]. apply SysInv_set_net; [assumption|]. apply remove_nth_Forall. assumption.
+  - (* dup *)
+    pose proof (SysInv_net s x Hs) as Hn. destruct (net_of s x) as [|s0 n] eqn:En; [assumption|].
+    destruct (nth_error _ _) as [seg|] eqn:Enth; [|assumption].
+    cbn [fst]. apply SysInv_set_net; [assumption|]. apply Forall_snoc; [assumption|].
+    apply nth_error_In in Enth. rewrite Forall_forall in Hn. auto.
+  - apply arrive_inv; assumption.
+  - cbn [fst]. apply fair_rounds_inv; assumption.
+  - assumption.
+Qed.
+
+Lemma run_inv c ls : wf_cfg c -> Forall wf_label ls -> forall s, SysInv s -> SysInv (run c s ls).
+Proof.
+  intros Hc Hls. unfold run. induction Hls as [|l ls Hl _ IH]; intros s Hs; cbn [fold_left]; [assumption|].
+  apply IH. apply sys_step_inv; assumption.
+Qed.
+
+Lemma init_sys_inv b : SysInv (init_sys b).
+Proof. constructor; cbn; try constructor. destruct b; exact I. Qed.
+
+Lemma no_crash_sys c b ls : wf_cfg c -> Forall wf_label ls ->
+  panicked (run c (init_sys b) ls) = false /\ SysInv (run c (init_sys b) ls).
+Proof.
+  intros Hc Hls. pose proof (run_inv c ls Hc Hls _ (init_sys_inv b)) as H.
+  split; [apply H|exact H].
+Qed.
+
+(* ------------------------------------------------------------------ *)
+(* the two side conditions of the invariant are needed, not artefacts  *)
+
+(* MTU below SPACE_FOR_HEADERS: segments() underflows a u16 (tcb.rs l.300) *)
+Lemma small_mtu_panics : tcb_segments (tcb_open 1000 80 0 49) = Panic 5.
+Proof. vm_compute. reflexivity. Qed.
+
+(* a text longer than RCV.WND + 1 (which no TCP header can announce: the
+   parser and the builder both refuse 20 + len > 65535) can start two below the
+   window, end inside it and still fail the assert! of l.597 *)
+Definition oversized_seg : segment :=
+  mkSeg (mkHdr 80 1000 499 101 (mkCtl false true false false false false) 65535 0) (repeat 0 65537).
+Lemma oversized_text_panics : segment_arrives idle_tcb oversized_seg = Panic 2.
+Proof. vm_compute. reflexivity. Qed.
